@@ -595,6 +595,11 @@ theorem step_invA (c : Cfg) (s s' : State) (a : Act) (h : InvA c s) (hs : step c
     split at hs
     · exact invA_notifyOne h hs
     · cases hs
+  | initSetEnabled b v =>
+    simp only [step] at hs
+    split at hs
+    · injection hs with hs; subst hs; exact invA_same h rfl rfl rfl
+    · cases hs
   | prepareSurrender =>
     simp only [step] at hs
     split at hs
